@@ -27,11 +27,11 @@ INITS = ["fresh", "in1", "in1_in2", "out1", "in1_pend", "in1_in1", "in1_out2", "
 
 EP_ACTIONS = ["cer1", "cer2", "cerx", "cer1nc", "cea_ok", "cea_rej", "dwr", "dwa", "dpr", "dpa", "req", "req2", "reqT", "reqdup", "req_bad",
               "req_realm", "req_app9", "dpr_req", "half", "ans", "ans_unk", "eof", "rst", "req_h0", "req_e0", "dwr_00",
-              "req_part", "cea_rej_req", "cer1_req", "req_raise", "wr_eagain", "wr_short"]
+              "req_part", "cea_rej_req", "cer1_req", "req_raise", "wr_eagain", "wr_short", "req_lag"]
 GLOBAL = ["accept", "dial1", "dial1_refused", "app_ans", "app_ans_new", "app_ans_again", "app_req0", "app_req1", "tick5", "tick25", "tick31", "node_close_old",
-          "handler_raises", "reconn1", "reconn1_out"]
+          "handler_raises", "reconn1", "reconn1_out", "both_lag"]
 FUNCTIONS = ["wire level (uni): Node._handle_connections, PeerConnection.work_read_queue/work_write_queue, Node._receive_message and every receive_*/send_* handler, route_request/route_answer, _check_timers, _reconnect_peers, remove_peer_connection - driven by bytes on virtual sockets, observed as bytes"]
-BOUNDS = {"quick": "wire-level histories (uni): every 2-event history over 79 events from the 2-4 initial states closest to the property, this property's monitor after every event",
+BOUNDS = {"quick": "wire-level histories (uni): every 2-event history over 82 events from the 2-4 initial states closest to the property, this property's monitor after every event",
           "thorough": "wire-level histories (uni): every 2-event history from 9 initial states x {persistent, non-persistent peers}; every 3-event history for 48 seeded (initial state, first event) pairs"}
 OUTSIDE = ["wire-level histories deeper than 3 events beyond the 9 initial states", "more than 2 configured peers / 3 simultaneous connections in the wire-level histories"]
 EVENTS = [a + "@new" for a in EP_ACTIONS] + [a + "@old" for a in EP_ACTIONS] + GLOBAL
@@ -118,6 +118,9 @@ class Uni:
     # ------------------------------------------------------------------ helpers
     def bad(self, prop, text):
         self.v.append((prop, "%s  [after %s]" % (text, ",".join(self.trace[-4:]))))
+        if prop == "C08" and (text.startswith("request (req)") or text.startswith("request handed to an application") or "nobody sent" in text):
+            # a well-formed frame of the stream was not delivered exactly once: the framing property as well
+            self.v.append(("C05", "%s  [after %s]" % (text, ",".join(self.trace[-4:]))))
 
     def nid(self):
         self.seq += 1
@@ -418,7 +421,7 @@ class Uni:
                     self.bad(exp[2], "request (%s) the node answers itself was shown to applications %s" % (rec["kind"], rec["delivered"]))
 
     # ------------------------------------------------------------------ events
-    def push(self, ep, frames, raw=None, extra=b""):
+    def push(self, ep, frames, raw=None, extra=b"", chunks=None):
         """one network read carrying the given frames (list of (message, kind)) - preceded by the rest of a half-sent frame"""
         if ep is None or not ep.open:
             return False
@@ -443,7 +446,11 @@ class Uni:
         for m, kind in frames:
             self.note_in(ep, m, kind)
         ep.last_rx = WORLD.now
-        ep.sock.inq.append(payload)
+        if chunks and not data:
+            ep.sock.inq.extend(chunks)
+            WORLD.defer_pump = len(chunks)
+        else:
+            ep.sock.inq.append(payload)
         self.settle()
         self.after_push(ep, [ep.reqs[k] for k in ep.reqs if k not in before])
         for k, app in enumerate(self.b.apps):
@@ -533,6 +540,13 @@ class Uni:
                 self._half_msg = m2
                 ep.partial = m2.as_bytes()[:30]
                 return ok
+            if act == "req_lag":
+                # two requests arriving as three network reads (cuts inside the second header and inside its body) which the
+                # I/O thread has all received before the connection's reader thread gets to run
+                m1, m2 = self.mk_req(ep, "req"), self.mk_req(ep, "req")
+                blob = m1.as_bytes() + m2.as_bytes()
+                c1, c2 = len(m1.as_bytes()) + 12, len(m1.as_bytes()) + 42
+                return self.push(ep, [(m1, "req"), (m2, "req")], chunks=[blob[:c1], blob[c1:c2], blob[c2:]])
             if act in ("wr_eagain", "wr_short"):
                 ep.sock.send_plan.append(real_socket.error(errno.EAGAIN, "again") if act == "wr_eagain" else 3)
                 return True
@@ -681,6 +695,25 @@ class Uni:
             for k, app in enumerate(self.b.apps):
                 app.raise_next = True
                 self.ref_raise[k] = True
+            return True
+        if name == "both_lag":
+            # one request on each of two ready connections, read by the I/O thread in the same select round before either
+            # reader thread runs
+            two = [e for e in self.eps if e.ready and not e.partial][:2]
+            if len(two) < 2:
+                return False
+            recs = []
+            for e in two:
+                m = self.mk_req(e, "req")
+                before = set(e.reqs)
+                self.note_in(e, m, "req")
+                e.last_rx = WORLD.now
+                e.sock.inq.append(m.as_bytes())
+                recs.append((e, [e.reqs[k] for k in e.reqs if k not in before]))
+            WORLD.defer_pump = 1
+            self.settle()
+            for e, rr in recs:
+                self.after_push(e, rr)
             return True
         if name in ("reconn1", "reconn1_out"):
             # macro: peer1's newest connection is lost, and peer1 comes back (inbound with a CER / dialled by the history)
@@ -935,7 +968,7 @@ def baseline(init, persistent):
 
 
 QUICK_INITS = {
-    "C06": ["fresh", "out1", "in1", "in1_out2"], "C07": ["in1", "in1_pend", "in1_answered", "out1"], "C08": ["in1", "in1_in2", "in1_pend", "out1"],
+    "C05": ["in1", "in1_in2", "in1_pend"], "C06": ["fresh", "out1", "in1", "in1_out2"], "C07": ["in1", "in1_pend", "in1_answered", "out1"], "C08": ["in1", "in1_in2", "in1_pend", "out1"],
     "C09": ["in1_pend", "in1_in1", "in1_in2", "in1_dwr"], "C10": ["in1", "in1_out2", "in1_dwr", "in1_in1"], "C11": ["in1", "in1_dwr", "out1", "in1_in2"],
     "C12": ["in1", "in1_dwr", "out1", "in1_in1"], "C13": ["fresh", "in1_in1", "in1_out2", "in1_in2"], "C14": ["in1", "in1_pend", "fresh", "in1_in1"],
     "C15": ["in1_pend", "in1", "out1"], "C17": ["in1_answered", "in1", "in1_pend", "in1_in1"], "C19": ["in1", "in1_pend", "in1_answered", "in1_out2"],
